@@ -42,7 +42,7 @@ impl Flow {
             fmt: self.issue.fmt,
             // keyed by the exact iss of the claims; anything else resolves to another key of the same family
             resolver: match self.issue.claims.get("iss").and_then(Value::as_str) {
-                Some(iss) => Resolver { default: other_key_same_family(self.issue.key), by_iss: vec![(iss.to_string(), self.issue.key)] },
+                Some(iss) => Resolver { default: other_key_same_family(self.issue.key), by_iss: vec![(iss.to_string(), self.issue.key)], by_kid: vec![] },
                 None => Resolver::always(self.issue.key),
             },
             aud: self.kb.as_ref().map(|k| k.aud.clone()),
